@@ -331,6 +331,18 @@ class Program:
                     digest=hashlib.sha256(raw).hexdigest()[:16],
                     is_pkg=is_pkg,
                 )
+        try:
+            with open(os.path.join(os.path.dirname(os.path.abspath(__file__)), "known_funcs.txt")) as fh:
+                kf = {ln.strip() for ln in fh if ln.strip()}
+        except OSError:
+            kf = set()
+        from .normalise import restore_param_names, unproperty_known_methods
+
+        self.unpropertied = unproperty_known_methods({m.name: m.tree for m in self.modules.values()}, kf)
+        self.restored_params = restore_param_names({m.name: m.tree for m in self.modules.values()})
+        from .normalise import inline_predicates
+
+        self.inlined_predicates = inline_predicates({m.name: m.tree for m in self.modules.values()}, kf, {m.name for m in self.modules.values() if m.is_pkg})
         for m in self.modules.values():
             self._index_module(m)
         self._expand_decorators()
@@ -618,6 +630,105 @@ class Program:
                     ci.field_default[st.target.id] = st.value
             elif isinstance(st, ast.Assign) and len(st.targets) == 1 and isinstance(st.targets[0], ast.Name):
                 ci.class_consts[st.targets[0].id] = st.value
+        self._synth_dataclass_init(m, ci)
+
+    def _synth_dataclass_init(self, m: Module, ci: ClassInfo) -> None:
+        """A dataclass with a `__post_init__` (or one whose hand-written `__init__` the rules know and which has been
+        turned into a dataclass) is analysed through the `__init__` the decorator generates: one parameter and one
+        store per init-field, the default / default_factory() of every init=False field, then `self.__post_init__()`.
+        Only the plain case: no dataclass bases, no InitVar / ClassVar, no `init=False` on the decorator."""
+        import copy
+
+        node = ci.node
+        deco = next((d for d in node.decorator_list if ast.unparse(d).split("(")[0].split(".")[-1] == "dataclass"), None)
+        if deco is None or "__init__" in ci.methods:
+            return
+        known_init = f"{ci.qual}.__init__"
+        try:
+            with open(os.path.join(os.path.dirname(os.path.abspath(__file__)), "known_funcs.txt")) as fh:
+                was_known = any(ln.strip() == known_init for ln in fh)
+        except OSError:
+            was_known = False
+        if "__post_init__" not in ci.methods and not was_known:
+            return
+        if node.bases and any(ast.unparse(b).split("[")[0].split(".")[-1] not in ("Generic", "object") for b in node.bases):
+            return
+        kw_only_all = False
+        if isinstance(deco, ast.Call):
+            for kw in deco.keywords:
+                if kw.arg == "init" and isinstance(kw.value, ast.Constant) and kw.value.value is False:
+                    return
+                if kw.arg == "kw_only" and isinstance(kw.value, ast.Constant) and kw.value.value is True:
+                    kw_only_all = True
+        pos: list[ast.arg] = [ast.arg(arg="self")]
+        pos_defaults: list[ast.expr] = []
+        kwonly: list[ast.arg] = []
+        kw_defaults: list[ast.expr | None] = []
+        body: list[ast.stmt] = []
+
+        def store(name: str, value: ast.expr) -> ast.stmt:
+            return ast.Assign(targets=[ast.Attribute(value=ast.Name(id="self", ctx=ast.Load()), attr=name, ctx=ast.Store())], value=value)
+
+        for st in node.body:
+            if not (isinstance(st, ast.AnnAssign) and isinstance(st.target, ast.Name)):
+                continue
+            ann = ast.unparse(st.annotation)
+            if "ClassVar" in ann or "InitVar" in ann:
+                return
+            name = st.target.id
+            init, default, factory, kwo = True, None, None, kw_only_all
+            v = st.value
+            if isinstance(v, ast.Call) and ast.unparse(v.func).split(".")[-1] == "field":
+                for kw in v.keywords:
+                    if kw.arg == "init" and isinstance(kw.value, ast.Constant):
+                        init = bool(kw.value.value)
+                    elif kw.arg == "default":
+                        default = kw.value
+                    elif kw.arg == "default_factory":
+                        factory = kw.value
+                    elif kw.arg == "kw_only" and isinstance(kw.value, ast.Constant):
+                        kwo = bool(kw.value.value)
+            elif v is not None:
+                default = v
+            dflt: ast.expr | None = copy.deepcopy(default) if default is not None else None
+            if dflt is None and factory is not None:
+                if isinstance(factory, ast.Lambda) and not factory.args.args:
+                    dflt = copy.deepcopy(factory.body)
+                else:
+                    dflt = ast.Call(func=copy.deepcopy(factory), args=[], keywords=[])
+            if init:
+                a = ast.arg(arg=name, annotation=copy.deepcopy(st.annotation))
+                if kwo:
+                    kwonly.append(a)
+                    kw_defaults.append(dflt if factory is None else None)
+                else:
+                    pos.append(a)
+                    if dflt is not None and factory is None:
+                        pos_defaults.append(dflt)
+                    elif pos_defaults:
+                        return  # non-default after default: not a valid dataclass anyway
+                if factory is not None:
+                    return  # an init-field with a default_factory: the MISSING sentinel dance is not modelled
+                body.append(store(name, ast.Name(id=name, ctx=ast.Load())))
+            elif dflt is not None:
+                body.append(store(name, dflt))
+        if "__post_init__" in ci.methods:
+            body.append(ast.Expr(value=ast.Call(func=ast.Attribute(value=ast.Name(id="self", ctx=ast.Load()), attr="__post_init__", ctx=ast.Load()), args=[], keywords=[])))
+        if not body:
+            body = [ast.Pass()]
+        fn = ast.FunctionDef(
+            name="__init__",
+            args=ast.arguments(posonlyargs=[], args=pos, vararg=None, kwonlyargs=kwonly, kw_defaults=kw_defaults, kwarg=None, defaults=pos_defaults),
+            body=body,
+            decorator_list=[],
+            returns=ast.Constant(value=None),
+            type_params=[],
+        )
+        for sub in ast.walk(fn):
+            ast.copy_location(sub, node)
+        ast.fix_missing_locations(fn)
+        self._index_func(m, fn, f"{ci.qual}.__init__", ci, None, ci.methods)
+        self.__dict__.setdefault("synth_inits", []).append(ci.qual)
 
     # ------------------------------------------------------------------ symbols
     def module_symbol(self, modname: str, attr: str, _depth: int = 0) -> tuple[str, Any]:
